@@ -96,6 +96,30 @@ mutate "(g) a new method appears in a whitelisted file" $CB \
 
 // Check that the index is within bounds of the list'
 
+AS=stacks/arraystack/arraystack.go
+mutate "(w1) ArrayStack.Values loop bound (size-1)/2" $AS \
+'	for i := 1; i <= size; i++ {' '	for i := 1; i <= (size-1)/2; i++ {'
+
+mutate "(w2) ArrayQueue.Dequeue removes index size-1" queues/arrayqueue/arrayqueue.go \
+'		queue.list.Remove(0)' '		queue.list.Remove(queue.list.Size() - 1)'
+
+mutate "(w3) LinkedListStack.Push uses Append instead of Prepend" stacks/linkedliststack/linkedliststack.go \
+'	stack.list.Prepend(value)' '	stack.list.Append(value)'
+
+mutate "(w4) PriorityQueue.Peek pops" queues/priorityqueue/priorityqueue.go \
+'	return queue.heap.Peek()' '	return queue.heap.Pop()'
+
+mutate "(w5) harmless: ArrayStack.Pop reads the size once" $AS \
+'	value, ok = stack.list.Get(stack.list.Size() - 1)
+	stack.list.Remove(stack.list.Size() - 1)' '	last := stack.list.Size() - 1
+	value, ok = stack.list.Get(last)
+	stack.list.Remove(last)'
+
+mutate "(w6) harmless: ArrayStack.Values counts from 0" $AS \
+'	for i := 1; i <= size; i++ {
+		elements[size-i], _ = stack.list.Get(i - 1) // in reverse (LIFO)' '	for i := 0; i < size; i++ {
+		elements[size-i-1], _ = stack.list.Get(i)'
+
 mutate "(h) Dequeue forgets to wrap start" $CB \
 '	if queue.start >= queue.maxSize {
 		queue.start = 0
